@@ -259,6 +259,11 @@ DIRECTED = [
     "R 0\nREPEAT 3 {\n    X_ERROR(0.125) 0\n    MR 0\n    OBSERVABLE_INCLUDE(0) rec[-1]\n    DETECTOR(1) rec[-1]\n    MPAD 1\n}",
     "R 0 1\nM 0 1\nOBSERVABLE_INCLUDE(1) rec[-1]\nDEPOLARIZE2(0.125) 0 1\nMZZ 0 1\nM 0 1\nDETECTOR(0.5) rec[-1] rec[-2] rec[-3]\nOBSERVABLE_INCLUDE(1) rec[-2]",
     "RX 0\nZ_ERROR(0.25) 0\nMRX 0\nOBSERVABLE_INCLUDE(0) rec[-1]\nMX 0\nMY 0\nMRY 0\nMY 0\nOBSERVABLE_INCLUDE(0) rec[-1] rec[-4]",
+    # instructions without targets: an empty DETECTOR (a detector that never fires) before / between the others, observables declared
+    # out of order; empty OBSERVABLE_INCLUDE; TICKs and SHIFT_COORDS without effect on the analysis
+    "R 0 1 2\nX_ERROR(0.125) 0\nX_ERROR(0.25) 1\nX_ERROR(0.375) 2\nM 0 1 2\nDETECTOR rec[-3]\nDETECTOR\nDETECTOR rec[-3] rec[-2]\nOBSERVABLE_INCLUDE(1) rec[-1]\nOBSERVABLE_INCLUDE(0) rec[-2]",
+    "R 0 1\nX_ERROR(0.125) 0\nX_ERROR(0.25) 1\nDETECTOR\nM 0 1\nOBSERVABLE_INCLUDE(2) rec[-1]\nTICK\nDETECTOR(1, 2)\nOBSERVABLE_INCLUDE(0) rec[-2]\nDETECTOR rec[-1] rec[-2]\nSHIFT_COORDS(1)\nOBSERVABLE_INCLUDE(1) rec[-1] rec[-2]",
+    "R 0\nX_ERROR(0.125) 0\nM 0\nDETECTOR\nOBSERVABLE_INCLUDE(0) rec[-1]\nDETECTOR rec[-1]",
     # a genuine probability-1/2 error with a detector AND an observable symptom, one with detector symptoms only
     "R 0 1\nX_ERROR(0.5) 0\nM 0\nDETECTOR rec[-1]\nOBSERVABLE_INCLUDE(0) rec[-1]\nX_ERROR(0.5) 1\nM 1\nDETECTOR rec[-1]",
 ]
